@@ -791,6 +791,8 @@ class ArrayOf(DataType):
         return ArrayOf(self.members.copy(), self.minlen, self.maxlen)
 
     def checkProperties(self):
+        # properties of the members may have been set through this type
+        self.members.checkProperties()
         self.default = [self.members.default] * self.minlen
         super().checkProperties()
 
